@@ -499,7 +499,7 @@ class Parser:
             variables.append(self._parse_var(in_statement=True))
         for variable in variables:
             if not isinstance(variable, (Name, Index, NamedIndex)):
-                self._error("Cannot assign to this expression", variable.token)
+                self._error("Cannot assign to this expression", self.current_token)
         self._switch_hint("expressions")
         self._eat_token(TokenType.ASSIGN)
         expressions: list[Expression] = self._parse_exp_list()
